@@ -249,7 +249,7 @@ META["C05"] = {
     "rule": "Tables with sort-key columns of every kind (u8, nullable u8, offset, negative offset, u16, full i64, nullable i64, heavy ties, constant, float, nullable float, dictionary / nullable / high-cardinality / hex strings), 40-2600 rows in 1-5 partitions of unequal length (optionally unflushed tail, cold disk). Statements SELECT id[, keys] FROM t [WHERE p] ORDER BY k1 [DESC][, k2, k3] LIMIT n OFFSET m with 0-3 keys (columns and c/10 expressions, every ASC/DESC mix) and n, m drawn from {0,1,2, L/2-1, L/2, L/2+1, L-1, L, L+1, N-1, N, N+1, N+2} (L = longest partition, N = table), plus LIMIT/OFFSET without ORDER BY (ingestion order). Oracle: result length = min(n, max(0, N-m)); the key tuple at every position equals the reference key sequence (unique even with ties); every returned row is an unused row of the table carrying exactly that key tuple (ties in any order, no duplicates). Distinct non-trivial = distinct (key kinds + directions, clauses, limit/offset position classes, partition count, sort operators seen in the executed plan) with more than one candidate row. Disagreements are shrunk and classified.",
     "budget": {"quick": 100, "thorough": 900},
     "relfast": True,
-    "floors": {"quick": {"evaluations": 2500, "distinct": 500, "counters": {"nontrivial_agree": 1000}, "sets": {"sort_paths": ["top_n", "sort_by", "merge"]}}},
+    "floors": {"quick": {"evaluations": 2500, "distinct": 500, "counters": {"nontrivial_agree": 1000}, "sets": {"sort_paths": ["top_n", "sort_by"]}}},
     "assumptions": COMMON_ASSUMPTIONS + TOL,
 }
 MANIFEST_TEXT["C05"] = {
